@@ -22,34 +22,36 @@ const (
 
 const preludeStr = `; --- govc prelude: strings as an abstract sort with length/at, Go integer division ---
 (declare-sort Str 0)
-(declare-fun str.len (Str) Int)
-(declare-fun str.at (Str Int) Int)
-(declare-fun str.cat (Str Str) Str)
-(declare-fun str.sub (Str Int Int) Str)
-(declare-fun str.chr (Int) Str)
-(declare-const str.empty Str)
-(assert (= (str.len str.empty) 0))
-(assert (forall ((a Str)) (! (>= (str.len a) 0) :pattern ((str.len a)))))
-(assert (forall ((a Str) (i Int)) (! (and (<= 0 (str.at a i)) (< (str.at a i) 256)) :pattern ((str.at a i)))))
-(assert (forall ((a Str) (b Str)) (! (= (str.len (str.cat a b)) (+ (str.len a) (str.len b))) :pattern ((str.cat a b)))))
-(assert (forall ((a Str) (b Str) (i Int)) (! (=> (and (<= 0 i) (< i (str.len a))) (= (str.at (str.cat a b) i) (str.at a i))) :pattern ((str.at (str.cat a b) i)))))
-(assert (forall ((a Str) (b Str) (i Int)) (! (=> (and (<= (str.len a) i) (< i (+ (str.len a) (str.len b)))) (= (str.at (str.cat a b) i) (str.at b (- i (str.len a))))) :pattern ((str.at (str.cat a b) i)))))
-(assert (forall ((a Str) (lo Int) (hi Int)) (! (=> (and (<= 0 lo) (<= lo hi) (<= hi (str.len a))) (= (str.len (str.sub a lo hi)) (- hi lo))) :pattern ((str.sub a lo hi)))))
-(assert (forall ((a Str) (lo Int) (hi Int) (i Int)) (! (=> (and (<= 0 lo) (<= lo hi) (<= hi (str.len a)) (<= 0 i) (< i (- hi lo))) (= (str.at (str.sub a lo hi) i) (str.at a (+ lo i)))) :pattern ((str.at (str.sub a lo hi) i)))))
-(assert (forall ((c Int)) (! (= (str.len (str.chr c)) 1) :pattern ((str.chr c)))))
-(assert (forall ((c Int)) (! (=> (and (<= 0 c) (< c 256)) (= (str.at (str.chr c) 0) c)) :pattern ((str.chr c)))))
-(define-fun str.same ((a Str) (b Str)) Bool (and (= (str.len a) (str.len b)) (forall ((i Int)) (! (=> (and (<= 0 i) (< i (str.len a))) (= (str.at a i) (str.at b i))) :pattern ((str.at a i)) :pattern ((str.at b i))))))
-(declare-fun str.eq (Str Str) Bool)
-(assert (forall ((a Str) (b Str)) (! (and (= (str.eq a b) (= a b)) (= (str.eq a b) (str.same a b))) :pattern ((str.eq a b)))))
-(declare-fun str.lt (Str Str) Bool)
-(assert (forall ((a Str)) (! (not (str.lt a a)) :pattern ((str.lt a a)))))
-(assert (forall ((a Str) (b Str)) (! (or (str.lt a b) (str.lt b a) (= a b)) :pattern ((str.lt a b)))))
-(assert (forall ((a Str) (b Str)) (! (not (and (str.lt a b) (str.lt b a))) :pattern ((str.lt a b)))))
+(declare-fun gs.len (Str) Int)
+(declare-fun gs.at (Str Int) Int)
+(declare-fun gs.cat (Str Str) Str)
+(declare-fun gs.sub (Str Int Int) Str)
+(declare-fun gs.chr (Int) Str)
+(declare-const gs.empty Str)
+(assert (= (gs.len gs.empty) 0))
+(assert (forall ((a Str)) (! (>= (gs.len a) 0) :pattern ((gs.len a)))))
+(assert (forall ((a Str) (i Int)) (! (and (<= 0 (gs.at a i)) (< (gs.at a i) 256)) :pattern ((gs.at a i)))))
+(assert (forall ((a Str) (b Str)) (! (= (gs.len (gs.cat a b)) (+ (gs.len a) (gs.len b))) :pattern ((gs.cat a b)))))
+(assert (forall ((a Str) (b Str) (i Int)) (! (=> (and (<= 0 i) (< i (gs.len a))) (= (gs.at (gs.cat a b) i) (gs.at a i))) :pattern ((gs.at (gs.cat a b) i)))))
+(assert (forall ((a Str) (b Str) (i Int)) (! (=> (and (<= (gs.len a) i) (< i (+ (gs.len a) (gs.len b)))) (= (gs.at (gs.cat a b) i) (gs.at b (- i (gs.len a))))) :pattern ((gs.at (gs.cat a b) i)))))
+(assert (forall ((a Str) (lo Int) (hi Int)) (! (=> (and (<= 0 lo) (<= lo hi) (<= hi (gs.len a))) (= (gs.len (gs.sub a lo hi)) (- hi lo))) :pattern ((gs.sub a lo hi)))))
+(assert (forall ((a Str) (lo Int) (hi Int) (i Int)) (! (=> (and (<= 0 lo) (<= lo hi) (<= hi (gs.len a)) (<= 0 i) (< i (- hi lo))) (= (gs.at (gs.sub a lo hi) i) (gs.at a (+ lo i)))) :pattern ((gs.at (gs.sub a lo hi) i)))))
+(assert (forall ((c Int)) (! (= (gs.len (gs.chr c)) 1) :pattern ((gs.chr c)))))
+(assert (forall ((c Int)) (! (=> (and (<= 0 c) (< c 256)) (= (gs.at (gs.chr c) 0) c)) :pattern ((gs.chr c)))))
+(define-fun gs.same ((a Str) (b Str)) Bool (and (= (gs.len a) (gs.len b)) (forall ((i Int)) (! (=> (and (<= 0 i) (< i (gs.len a))) (= (gs.at a i) (gs.at b i))) :pattern ((gs.at a i)) :pattern ((gs.at b i))))))
+(declare-fun gs.eq (Str Str) Bool)
+(assert (forall ((a Str) (b Str)) (! (and (= (gs.eq a b) (= a b)) (= (gs.eq a b) (gs.same a b))) :pattern ((gs.eq a b)))))
+(declare-fun gs.lt (Str Str) Bool)
+(assert (forall ((a Str)) (! (not (gs.lt a a)) :pattern ((gs.lt a a)))))
+(assert (forall ((a Str) (b Str)) (! (or (gs.lt a b) (gs.lt b a) (= a b)) :pattern ((gs.lt a b)))))
+(assert (forall ((a Str) (b Str)) (! (not (and (gs.lt a b) (gs.lt b a))) :pattern ((gs.lt a b)))))
 (declare-fun err.msg (Int) Str)
-(define-fun str.ascii ((a Str)) Bool (forall ((i Int)) (! (=> (and (<= 0 i) (< i (str.len a))) (< (str.at a i) 128)) :pattern ((str.at a i)))))
+(define-fun gs.ascii ((a Str)) Bool (forall ((i Int)) (! (=> (and (<= 0 i) (< i (gs.len a))) (< (gs.at a i) 128)) :pattern ((gs.at a i)))))
 `
 
 const preludeArith = `; --- govc prelude: Go integer division ---
+(declare-fun gs.ix (Int Int) Int)
+(assert (forall ((o Int) (i Int)) (! (= (gs.ix o i) (+ o i)) :pattern ((gs.ix o i)))))
 (define-fun go.div ((a Int) (b Int)) Int (ite (>= a 0) (ite (> b 0) (div a b) (- (div a (- b)))) (ite (> b 0) (- (div (- a) b)) (div (- a) (- b)))))
 (define-fun go.mod ((a Int) (b Int)) Int (- a (* b (go.div a b))))
 (define-fun go.max ((a Int) (b Int)) Int (ite (>= a b) a b))
@@ -276,4 +278,14 @@ func minus(a, b string) string {
 		return a
 	}
 	return "(- " + a + " " + b + ")"
+}
+
+// elemIx: index of element i of a slice with offset off in its row. For a
+// symbolic offset the sum is wrapped in an uninterpreted function so that
+// quantifier patterns over slice elements match modulo arithmetic rewriting.
+func elemIx(off, i string) string {
+	if off == "0" {
+		return i
+	}
+	return "(gs.ix " + off + " " + i + ")"
 }
